@@ -97,13 +97,30 @@ def _cond_keys(pdict, acc=None):
     return acc
 
 
+def index_stress_shapes(identity):
+    """Shapes that produce three-digit group indices (one and two nesting levels)."""
+    if identity == "4076_201":
+        return [{"IDF035": 0, "IDF037": 15, "IDF038": 15}, {"IDF035": 0, "IDF037": 15, "IDF038": 12},
+                {"IDF035": 1, "IDF037": 13, "IDF038": 13, "IDF037_02": 0, "IDF038_02": 0}]
+    return []
+
+
+MSM_STRESS = [
+    # 4 x 32 with 110 cells (three-digit cell indices; fits up to MSM6), 64 x 2 with 100 cells
+    {"DF394": 0xF << 57, "DF395": (1 << 32) - 1,
+     "DF396": ((1 << 128) - 1) & ~int("1000000" * 18, 2)},
+    {"DF394": (1 << 64) - 1, "DF395": (1 << 30) | (1 << 9),
+     "DF396": ((1 << 128) - 1) & ~int("10000" * 25 + "000", 2) & ((1 << 128) - 1)},
+]
+
+
 def enumerate_shapes(identity, tier):
     """All shapes of the alphabet for one identity (list of dicts, simplest first)."""
     pdict = R.definition(identity)
     if pdict is None:
         raise R.BadDefinition(f"{identity}: no definition reachable by range dispatch")
     if "DF394" in pdict:
-        return list(msm_shapes(tier))
+        return list(msm_shapes(tier)) + MSM_STRESS
     cond = _cond_keys(pdict)
     out = []
 
@@ -123,6 +140,7 @@ def enumerate_shapes(identity, tier):
             out.append(shape)
     out.sort(key=lambda s: (sum(s.values()), len(s), sorted(s.items())))
     out += [m for m in max_shapes(identity, pdict) if m not in out]
+    out += [m for m in index_stress_shapes(identity) if m not in out]
     return out
 
 
